@@ -150,11 +150,6 @@ class Orient(Case):
         last = dyn.states[-1]
         obs = [Ob.eq("final state has the orientation of exp(-H/T)", last, E, key="state",
                      info="zero coupling: GibbsTempo returns the transpose of (G.G)^n, G = expm(-H/(2Tn))")]
-        tr = E[0, 0] + E[1, 1]
-        inp.assume(tr != 0)
-        gs = g.get_state()
-        obs.append(Ob.eq("get_state() * tr == (G.G)^n", _scale(gs, tr), E, key="get_state",
-                         info="zero coupling: get_state() is the transpose of exp(-H/T)/Z"))
         return obs
 
 
@@ -188,7 +183,6 @@ class Wiring(Case):
         obs.append(Ob.eq("product of the off-diagonals", last[0, 1] * last[1, 0], E[0, 1] * E[1, 0]))
         obs.append(Ob.holds("number of recorded states", len(dyn.states) == n + 1))
         obs.append(Ob.holds("imaginary times", all(abs(t - k / (TEMPERATURE * n)) < 1e-12 for k, t in enumerate(dyn.times))))
-        obs.append(Ob.holds("back-end step counter == n_steps", g._backend_instance.step == n))
         return obs
 
 
@@ -222,29 +216,37 @@ class Repeat(Case):
 
 
 class Normalised(Case):
-    """H3: get_state() * trace == last state, trace(get_state()) == 1 (trace != 0)"""
-    functions = ("GibbsTempo.get_state", "GibbsTempo.compute")
+    """H3: get_state() == last recorded state / its trace, for an ARBITRARY last state with
+    non-zero trace (the last state is planted into the Dynamics object of a really
+    constructed and computed GibbsTempo); Hermitian if that state is Hermitian"""
+    functions = ("GibbsTempo.get_state", "GibbsTempo.compute", "Dynamics.add")
     stubs = (STUB_EXPM, STUB_SVD)
     env = {"extra": SYM_EXTRA}
 
-    def __init__(self, n_steps):
-        self.n = n_steps
-        self.id = "H3/normalised_n%d" % n_steps
-        self.bounds = {"d": 2, "n_steps": n_steps, "coupling": 0}
+    def __init__(self, kind):
+        self.kind = kind
+        self.id = "H3/normalised_%s" % kind
+        self.bounds = {"d": 2, "last_state": kind}
         self.bath = make_bath()
 
     def run(self, inp):
-        H = herm(inp, "H")
-        G = herm(inp, "G")
-        g, _ = _gibbs(inp, self.n, H, G, self.bath)
-        dyn = g.compute(progress_type="silent")
-        last = dyn.states[-1]
-        tr = last[0, 0] + last[1, 1]
+        from oqupy.dynamics import Dynamics
+        g, _ = _gibbs(inp, 2, herm(inp, "H", False), herm(inp, "G", False), self.bath)
+        g.compute(progress_type="silent")
+        M = herm(inp, "M") if self.kind == "hermitian" else inp.arr("M", (2, 2), cplx=True)
+        tr = M[0, 0] + M[1, 1]
         inp.assume(tr != 0)
+        dyn = Dynamics()
+        for t, st in zip(g.get_dynamics().times[:-1], g.get_dynamics().states[:-1]):
+            dyn.add(t, st)
+        dyn.add(g.get_dynamics().times[-1], M)
+        g._dynamics = dyn
         gs = g.get_state()
-        return [Ob.eq("get_state() * trace == last state", _scale(gs, tr), last),
-                Ob.eq("unit trace", gs[0, 0] + gs[1, 1], inp.one()),
-                Ob.eq("Hermitian (zero coupling)", gs, _dagger(gs))]
+        obs = [Ob.eq("get_state() * trace == last state", _scale(gs, tr), M),
+               Ob.eq("unit trace", gs[0, 0] + gs[1, 1], inp.one())]
+        if self.kind == "hermitian":
+            obs.append(Ob.eq("Hermitian", gs, _dagger(gs)))
+        return obs
 
 
 # -- H3: coefficients and Hermiticity at arbitrary coupling --------------------------
@@ -272,7 +274,8 @@ class Coefficients(Case):
         seen = []
 
         def eta(self_, tau, epsrel=None, subdiv_limit=None, matsubara=False):
-            seen.append(matsubara)
+            if self_ is not None:
+                seen.append(matsubara)
             t = S.of(tau)
             if inp.mode == "sym":
                 a = sym.zr(t.re)
@@ -282,7 +285,7 @@ class Coefficients(Case):
                 else complex(np.sin(3 * x) + x * x, np.cos(2 * x) - 0.3 * x)
         H = herm(inp, "H")
         G = herm(inp, "G")
-        with env.patched({"oqupy.bath_correlations.CustomSD.eta_function": eta} if False else {}):
+        if True:
             import oqupy.bath_correlations as bc
             old = bc.CustomSD.eta_function
             bc.CustomSD.eta_function = eta
@@ -360,6 +363,80 @@ class HermitianCoupled(Case):
         return obs
 
 
+class ZRotation(Case):
+    """H1 at ARBITRARY coupling: the exact reduced thermal state is covariant under rotations
+    about the coupling axis, rho(R H R^+) = R rho(H) R^+ for R = diag(u, conj u)/|u| (the
+    coupling operator is diagonal, hence invariant).  Real GibbsTempo with a coupled bath,
+    eta_function uninterpreted, expm -> G resp. the rotated G.  Stated without side
+    condition for u = 1 + i t:  G' = nu R G R^+,  nu = 1 + t^2,  state homogeneous of degree
+    2n in G  =>  state(G') = nu^(2n) R state(G) R^+.  A transposed result is covariant with
+    the opposite rotation sense, so this is the non-zero-coupling face of the orientation."""
+    functions = Orient.functions + ("CustomSD.correlation_2d_integral",)
+    stubs = (STUB_EXPM, STUB_SVD, "CustomSD.eta_function -> uninterpreted complex function of tau",
+             "numpy exp in tempo_backend -> uninterpreted real function on real arguments, exp(0) = 1")
+    env = {"extra": dict(SYM_EXTRA, **{"oqupy.backends.tempo_backend.exp": _real_exp})}
+    timeout_s = 600
+
+    def __init__(self, n_steps):
+        self.n = n_steps
+        self.id = "H1/zrot_n%d" % n_steps
+        self.bounds = {"d": 2, "n_steps": n_steps, "coupling": "symbolic (eta uninterpreted)"}
+        self.bath = make_bath(0.1)
+
+    def run(self, inp):
+        import oqupy.bath_correlations as bc
+        n = self.n
+        H = herm(inp, "H", False)
+        G = herm(inp, "G")
+        t = inp.real("t")
+        one = inp.one()
+        if inp.mode == "real":
+            u = complex(1.0, t)
+            uc = u.conjugate()
+        else:
+            u = S(one.re, t.re)
+            uc = u.conjugate_()
+        nu = u * uc
+        Gp = np.array(G, dtype=G.dtype)
+        Gp[0, 0], Gp[1, 1] = nu * G[0, 0], nu * G[1, 1]
+        Gp[0, 1] = u * u * G[0, 1]
+        Gp[1, 0] = uc * uc * G[1, 0]
+        eta = _eta_stub(inp, [])
+        old = bc.CustomSD.eta_function
+        bc.CustomSD.eta_function = eta
+        try:
+            g1, _ = _gibbs(inp, n, H, G, self.bath)
+            g2, _ = _gibbs(inp, n, H, Gp, self.bath)
+            s = g1.compute(progress_type="silent").states[-1]
+            sp = g2.compute(progress_type="silent").states[-1]
+        finally:
+            bc.CustomSD.eta_function = old
+        f = one
+        for _ in range(2 * n - 1):
+            f = f * nu
+        want = np.array(s, dtype=s.dtype)
+        want[0, 0], want[1, 1] = f * nu * s[0, 0], f * nu * s[1, 1]
+        want[0, 1] = f * u * u * s[0, 1]
+        want[1, 0] = f * uc * uc * s[1, 0]
+        return [Ob.eq("state of the rotated Hamiltonian == rotated state", sp, want, key="state",
+                      info="GibbsTempo with a coupled bath: rotating H about the coupling axis rotates the result the wrong way "
+                           "(the returned state is the transpose of the thermal state)")]
+
+
+def _eta_stub(inp, seen):
+    def eta(self_, tau, epsrel=None, subdiv_limit=None, matsubara=False):
+        if self_ is not None:
+            seen.append(matsubara)
+        t = S.of(tau)
+        if inp.mode == "sym":
+            a = sym.zr(t.re)
+            return S(_ETA_RE(a), _ETA_IM(a))
+        x = float(t.re)
+        v = complex(np.sin(3 * x) + x * x, np.cos(2 * x) - 0.3 * x)
+        return S.of(v) if inp.mode == "frac" else v
+    return eta
+
+
 def _scale(arr, f):
     arr = np.asarray(arr)
     if arr.dtype != object:
@@ -383,7 +460,7 @@ def _dagger(m):
 
 def cases(tier):
     cs = [Orient(2), Orient(3), Orient(2, cplx=False), Orient(3, cplx=False), Wiring(2), Wiring(3), Repeat(3),
-          Normalised(2), Normalised(3), Coefficients(3), HermitianCoupled(2), HermitianCoupled(3)]
+          Normalised("generic"), Normalised("hermitian"), Coefficients(3), HermitianCoupled(2), HermitianCoupled(3), ZRotation(2), ZRotation(3)]
     if tier == "thorough":
-        cs += [Orient(4), Orient(5), Orient(4, cplx=False), Wiring(4), Repeat(4), Repeat(2), Normalised(4), HermitianCoupled(4)]
+        cs += [Orient(4), Orient(5), Orient(4, cplx=False), Wiring(4), Repeat(4), Repeat(2), HermitianCoupled(4)]
     return cs
